@@ -288,7 +288,6 @@ Proof.
   destruct l as [|y l']; simpl; constructor. inversion Hhd; subst. assumption.
 Qed.
 
-Definition nilb {X} (l : list X) : bool := match l with [] => true | _ => false end.
 
 Section Final.
 Variable E : env.
@@ -296,13 +295,7 @@ Hypothesis HE : env_ok E.
 Variable io : fileio.
 Hypothesis HIO : io_env_ok E io.
 
-(* the computable sanity check of the float arithmetic on the pipeline's own values *)
-Definition f64_arith_ok (tr : trained F64) : bool :=
-  negb (PrimFloat.eqb (t_cov tr) 0%float) &&
-  forallb (fun nc => nilb (snd nc) || f64_wf_hyps (@of_counts FNum (snd nc))) (term_counters (t_counters tr)) &&
-  f64_wf_hyps (base_counter RF tr) &&
-  negb (PrimFloat.eqb (skip_total (1%float : P F64) PrimFloat.sub (base_file RF tr)) 0%float) &&
-  forallb (fun b : P F64 * list TextFile.str => okbF (fst b)) (loaded_bases RF E tr).
+Notation f64_arith_ok := (PipelineSpec.f64_arith_ok E).
 
 Lemma arith_parts tr : f64_arith_ok tr = true ->
   PrimFloat.eqb (t_cov tr) 0%float = false /\
